@@ -89,7 +89,7 @@ Proof. split; reflexivity. Qed.
 Definition ex_inner : state :=
   mkst (repeat 0 32) (mks 0 true false)
        (env_of [("_toc", VToc []); ("_last", VNone); ("_eof", VInt 32); ("_closed", VBool false); ("mode", VStr "a")]) empty_env.
-Definition ex_b : bstate := mkbs ex_inner true [] [] 0%Z 1000%Z false (fun x => if String.eqb x "key" then Some [7] else if String.eqb x "value" then Some [1; 2] else None).
+Definition ex_b : bstate := mkbs ex_inner true [] [] 0%Z 1000%Z false SWriting (fun x => if String.eqb x "key" then Some [7] else if String.eqb x "value" then Some [1; 2] else None).
 Example C02_code_backend_runs :
   let '(s1, o1) := bexec 10 bput_prog ex_b in
   o1 = BONormal /\ bq s1 = [([7], [1; 2])] /\ file (inner s1) = repeat 0 32 /\
